@@ -87,7 +87,17 @@ RulesMatch(want, got) ==
   /\ \A j \in DOMAIN want : /\ SeqSet(got[j].tg) = want[j].tg /\ NoDups(got[j].tg)
                               /\ SeqSet(got[j].src) = want[j].src /\ NoDups(got[j].src)
                               /\ got[j].cmd = want[j].cmd
-Allowed(rec) ==
+\* two files given to parse_all: the rules of both in order, or the first error, naming the file it is in
+AllowedMulti(rec) ==
+  LET o1 == Oracle(rec.lines1)  o2 == Oracle(rec.lines2) IN
+  /\ rec.out.res # "panic"
+  /\ IF o1.errs # {} THEN rec.out.res = "err" /\ rec.out.file = "one.rules" /\ \E e \in o1.errs : e[1] = rec.out.kind /\ (e[2] = 0 \/ e[2] = rec.out.line)
+     ELSE IF o2.errs # {} THEN (o1.adjacent /\ rec.out.res = "err" /\ rec.out.file = "one.rules")
+                               \/ (rec.out.res = "err" /\ rec.out.file = "two.rules" /\ \E e \in o2.errs : e[1] = rec.out.kind /\ (e[2] = 0 \/ e[2] = rec.out.line))
+     ELSE IF o1.adjacent \/ o2.adjacent THEN (rec.out.res = "ok" => RulesMatch(o1.rules \o o2.rules, rec.out.rules))
+     ELSE rec.out.res = "ok" /\ RulesMatch(o1.rules \o o2.rules, rec.out.rules)
+
+AllowedSingle(rec) ==
   LET o == Oracle(rec.lines) IN
   /\ rec.out.res # "panic"
   /\ IF o.errs = {}
@@ -99,4 +109,6 @@ Allowed(rec) ==
           /\ \E e \in o.errs : e[1] = rec.out.kind /\ (e[2] = 0 \/ e[2] = rec.out.line)
   \* the same text with the lines of each section in another order must give exactly the same result
   /\ ("out2" \in DOMAIN rec /\ rec.out.res = "ok") => rec.out2 = rec.out
+
+Allowed(rec) == IF "multi" \in DOMAIN rec THEN AllowedMulti(rec) ELSE AllowedSingle(rec)
 =============================================================================
